@@ -1589,6 +1589,61 @@ func main() {
 		sort.Strings(sent)
 		fmt.Fprintf(&ft, "/-- the sentinel errors `channel.IsErrClosing` recognises (via errors.Is / ==), sorted -/\ndef isErrClosingSentinels : List String := [%s]\n\n", strings.Join(sent, ", "))
 	})
+	// every goroutine that announces its end with `defer X.Done()`: is X.Add(..) called before the go
+	// statement, in the same statement list (so that X.Wait() cannot return before it is counted)?
+	guard(&ft, []string{"goRegistration"}, func() {
+		var rows []string
+		for _, fn := range []string{"server.go", "client.go"} {
+			f := root.files[fn]
+			if f == nil {
+				continue
+			}
+			for _, d := range f.Decls {
+				fd, ok := d.(*ast.FuncDecl)
+				if !ok || fd.Body == nil {
+					continue
+				}
+				ast.Inspect(fd.Body, func(x ast.Node) bool {
+					var list []ast.Stmt
+					switch b := x.(type) {
+					case *ast.BlockStmt:
+						list = b.List
+					case *ast.CaseClause:
+						list = b.Body
+					default:
+						return true
+					}
+					for i, st := range list {
+						gs, ok := st.(*ast.GoStmt)
+						if !ok {
+							continue
+						}
+						lit, ok := gs.Call.Fun.(*ast.FuncLit)
+						if !ok {
+							continue
+						}
+						for _, bs := range lit.Body.List {
+							ds, ok := bs.(*ast.DeferStmt)
+							if !ok || !strings.HasSuffix(src(ds.Call.Fun), ".Done") {
+								continue
+							}
+							wg := strings.TrimSuffix(src(ds.Call.Fun), ".Done")
+							before := false
+							for j := 0; j < i; j++ {
+								if strings.HasPrefix(src(list[j]), wg+".Add(") {
+									before = true
+								}
+							}
+							rows = append(rows, fmt.Sprintf("(%s, %s, %s, %v)", leanStr(fn), leanStr(fd.Name.Name), leanStr(wg), before))
+						}
+					}
+					return true
+				})
+			}
+		}
+		sort.Strings(rows)
+		fmt.Fprintf(&ft, "/-- every goroutine that ends with `defer X.Done()`: file, function, X, and whether `X.Add(..)` precedes the go statement in the same statement list -/\ndef goRegistration : List (String × String × String × Bool) := [\n  %s\n]\n\n", strings.Join(rows, ",\n  "))
+	})
 	ft.WriteString("end Jrpc.Gen.Facts\n")
 	write(*out, "Facts.lean", ft.String())
 	write(*out, "FAILURES.txt", strings.Join(failures, "\n"))
